@@ -272,26 +272,40 @@ def gen_exceptions(src: Path, out: list[str]):
     out.append("].")
 
 
+SECTIONS = [("w3c", "gen_w3c"), ("discovery", "gen_discovery"), ("mapping", "gen_mapping"), ("resolver", "gen_resolver"),
+            ("exceptions", "gen_exceptions")]
+
+
 def main(argv):
+    """Each section is translated independently: a construct the translator does not recognise in one source file fails
+    that section only (its definitions are omitted, so exactly the obligations that need them stop compiling)."""
     src = Path(argv[1])
     outp = Path(argv[2])
     out = ["(* GENERATED by translator/gen.py from the working tree -- do not edit *)",
            "From Curies.model Require Import Str Regex.", ""]
-    gen_w3c(src, out)
-    gen_discovery(src, out)
-    gen_mapping(src, out)
-    gen_resolver(src, out)
-    gen_exceptions(src, out)
+    failed = {}
+    for name, fn in SECTIONS:
+        part: list[str] = []
+        try:
+            globals()[fn](src, part)
+            out += part
+        except Unsupported as e:
+            failed[name] = f"unsupported construct: {e}"
+            out.append(f"(* section {name}: NOT TRANSLATED *)")
+        except (SyntaxError, OSError, KeyError, IndexError, AttributeError, TypeError, ValueError) as e:
+            failed[name] = f"{type(e).__name__}: {e}"
+            out.append(f"(* section {name}: NOT TRANSLATED *)")
     text = "\n".join(out) + "\n"
     if not outp.exists() or outp.read_text() != text:
         outp.parent.mkdir(parents=True, exist_ok=True)
         outp.write_text(text)
-    return 0
+    import json
+
+    Path(str(outp) + ".status.json").write_text(json.dumps(failed))
+    for k, v in failed.items():
+        print(f"translator: section {k}: {v}", file=sys.stderr)
+    return 4 if failed else 0
 
 
 if __name__ == "__main__":
-    try:
-        sys.exit(main(sys.argv))
-    except Unsupported as e:
-        print(f"translator: unsupported construct: {e}", file=sys.stderr)
-        sys.exit(3)
+    sys.exit(main(sys.argv))
